@@ -8,7 +8,7 @@
 //   * c12m::deep  EVERY data member of the target, recursively (member list generated from the clang AST:
 //                 harness/c12_members_gen.h, value rules in harness/c12_snap.h);
 //   * snap        the observable description + raw cached signature + is_valid() (c11_ser.h / c11_big.h).
-// `## <where>` names the first member that differs (indices into the generated table) when `changed`.
+// `## <where>` names the first member that differs (outermost -> innermost) when `changed`.
 // The request `stats` answers the visit / populated counters of the deep snapshot and the histogram of the
 // target features.
 // Allocation requests above 64 MiB throw std::bad_alloc (a damaged element count must not take
